@@ -435,7 +435,7 @@ def _w_paths(W, I, V):
     W["paths"] = [[V[1], V[3], V[2]], [V[1], "mid-1", V[3], V[2]], [V[1], V[2]]]
 
 
-@op("get_nodes_on_path_with_hops", 4, {**CLS, "cut_off": [100, 3]}, sent=lambda I, V: V[:3], world=_w_paths)
+@op("get_nodes_on_path_with_hops", 4, {**CLS, "cut_off": [100, 3, 1, 0]}, sent=lambda I, V: V[:3], world=_w_paths)
 def _(E, I, V):
     E.g(I["cls"], V[0]).get_nodes_on_path_with_hops(node_a=V[1], node_z=V[2], hops=[V[3]], cut_off=I["cut_off"])
 
